@@ -88,6 +88,10 @@ def P_rows():
         ("|<r>..<x>| == 4", lambda t: len(dotdot(R(t), "<x>")) == 4),
         ("int(<r>[0]) == 1", lambda t: truthy_all([(kids(m)[0],) for m in R(t)], lambda m: int(m) == 1)),
         ("str(<r>[2]) != '3'", lambda t: truthy_all([(kids(m)[2],) for m in R(t)], lambda m: str(m) != "3")),
+        ("str(<r>[:1]) == '1'", lambda t: truthy_all([(m,) for m in R(t)], lambda m: "".join(str(c) for c in kids(m)[:1]) == "1")),
+        ("str(<r>[1:]) != ',1'", lambda t: truthy_all([(m,) for m in R(t)], lambda m: "".join(str(c) for c in kids(m)[1:]) != ",1")),
+        ("str(<r>[0:2]) == '1,'", lambda t: truthy_all([(m,) for m in R(t)], lambda m: "".join(str(c) for c in kids(m)[0:2]) == "1,")),
+        ("str(<start>[:2]) != '1,1;'", lambda t: truthy_all([(m,) for m in S(t)], lambda m: "".join(str(c) for c in kids(m)[:2]) != "1,1;")),
         ("str(<start>[0]) == str(<start>[2])", lambda t: truthy_all([(kids(m)[0], kids(n)[2]) for m in S(t) for n in S(t)], lambda a, b: str(a) == str(b))),
         ("int(<start>.<r>[0]) <= 2", lambda t: truthy_all([(kids(m)[0],) for m in dot(S(t), "<r>")], lambda m: int(m) <= 2)),
         ("int(<x>) <= 2 and str(<r>) != '2,2'", lambda t: truthy_all([(m,) for m in X(t)], lambda m: int(m) <= 2) and truthy_all([(m,) for m in R(t)], lambda m: str(m) != "2,2")),
@@ -207,7 +211,7 @@ def run(tier="quick", seed=0, pid="C07"):
                 samples.append({"grammar": gname, "constraint": text, "trees": len(trees)})
     return {
         "evaluations": evaluations, "distinct_nontrivial": len(distinct),
-        "rule": ("46 constraint programs (rule / . / .. / [] / * / |..| selectors, and/or/not, comprehensions, forall/exists incl. nested and "
+        "rule": ("50 constraint programs (rule / . / .. / [] / * / |..| selectors, and/or/not, comprehensions, forall/exists incl. nested and "
                  "rebinding, sub-expressions that raise) x the words of three small grammars (quick: every ~2nd word; thorough: all), each "
                  "tree checked twice with the same constraint objects; distinct = distinct (program, word); all non-trivial"),
         "bound": "two grammars, words up to 9 atoms", "samples": samples, "violations": violations, "undecided": undecided,
